@@ -350,6 +350,12 @@ def py_compare(eng, op: str, a: Val, b: Val) -> Term:
             raise GenerationError(f"'is' between {a} and {b}")
         return e if op == "Is" else Not(e)
     if op in ("Lt", "LtE", "Gt", "GtE"):
+        # an Optional[int] operand: compared through its value (None has no order; the comparison then
+        # constrains nothing, so nothing can be proved from it)
+        if isinstance(a, V) and isinstance(a.ty, TOpt) and isinstance(a.ty.inner, TInt):
+            a = V(INT, eng.decls.opt_val(a.t))
+        if isinstance(b, V) and isinstance(b.ty, TOpt) and isinstance(b.ty.inner, TInt):
+            b = V(INT, eng.decls.opt_val(b.t))
         if isinstance(a, V) and isinstance(b, V) and isinstance(a.ty, (TInt, TBool)) and isinstance(b.ty, (TInt, TBool)):
             x, y = _int(eng, a), _int(eng, b)
             return {"Lt": Lt, "LtE": Le, "Gt": Gt, "GtE": Ge}[op](x, y)
